@@ -230,11 +230,56 @@ def stack_failure(c, shifts, upsample=False):
     return None
 
 
+def consecutive_failure(desc, radius, h, m, ups, seed):
+    """the disk located in a frame of even width 2m and, immediately afterwards (no other call in between), in a frame of odd width 2m+1 --
+    the two have half spectra of the same width -- and then in the even one again, through the full-frame batch function with DFT upsampling"""
+    r = np.random.default_rng(seed)
+    for w in (2 * m, 2 * m + 1, 2 * m, 2 * m + 1):
+        cs = cl.pattern_from_desc(desc).get_crop_size()
+        p = (int(r.integers(cs + 1, h - cs - 1)), int(r.integers(cs + 1, w - cs - 1)))
+        c = dict(desc=desc, radius=radius, shape=(h, w), p=p, off=(int(r.integers(-1, 2)), int(r.integers(-1, 2))), amp=20, bg=2, aa=True)
+        x = render(c)[np.newaxis].astype(np.float32)
+        peak = np.array([[p[0] + c['off'][0], p[1] + c['off'][1]]])
+        cen, ref, hei, ele = cc.process_frames_full(cl.pattern_from_desc(desc), x, peak, upsample=ups)
+        err = float(np.abs(ref[0, 0].astype(np.float64) - np.array(p)).max())
+        bound = 1.5 / (20 if ups is True else ups)
+        if cen[0, 0].tolist() != list(p) or not err <= bound:
+            return 'process_frames_full(upsample=%s) on a %dx%d frame right after a %dx%d frame: disk on pixel %s: centre %s refined %s (%.4f px off, bound %.4f)' % (
+                ups, h, w, h, (2 * m if w % 2 else 2 * m + 1), p, cen[0, 0].tolist(), ref[0, 0].tolist(), err, bound)
+    return None
+
+
+def narrow_centres_failure(c, ups):
+    """the full-frame kernel with the centres written into the narrowest integer dtype that holds the coordinates: coordinate x upsampling factor
+    does not fit that dtype, so no intermediate may be computed in it"""
+    fy, fx = c['shape']
+    pattern = cl.pattern_from_desc(c['desc'])
+    cs = pattern.get_crop_size()
+    frame = render(c).astype(np.float32)
+    peak = (c['p'][0] + c['off'][0], c['p'][1] + c['off'][1])
+    for dtc in (np.int8, np.uint8, np.int16):
+        if max(fy, fx) + cs > np.iinfo(dtc).max:
+            continue
+        outs = (np.full((1, 2), 0, dtype=dtc), np.full((1, 2), np.nan, dtype=np.float32), np.full((1,), np.nan, dtype=np.float32), np.full((1,), np.nan, dtype=np.float32))
+        cl.run_full(pattern, frame, [peak], upsample=ups, outs=outs)
+        err = float(np.abs(outs[1][0].astype(np.float64) - np.array(c['p'])).max())
+        bound = 1.5 / (20 if ups is True else ups)
+        if outs[0][0].tolist() != list(c['p']) or not err <= bound:
+            return 'process_frame_full(upsample=%s, out_centers dtype %s): disk on pixel %s (frame %s, radius %s, %s): centre %s refined %s (%.4f px off, bound %.4f)' % (
+                ups, np.dtype(dtc).name, c['p'], c['shape'], c['radius'], c['desc']['kind'], outs[0][0].tolist(), outs[1][0].tolist(), err, bound)
+    return None
+
+
 def replay(body):
     if 'frame_ints' in body.get('args', {}):
         return cl.replay_case(body, 'C01')          # a failing input recorded by the model correspondence (cl.model_check)
     a = body['args']
-    if 'stack_shifts' in a:
+    if 'consecutive' in a:
+        q = a['consecutive']
+        fail = consecutive_failure(q['desc'], q['radius'], q['h'], q['m'], q['upsample'], q['seed'])
+    elif a.get('narrow_centres'):
+        fail = narrow_centres_failure(a['case'], a['upsample'])
+    elif 'stack_shifts' in a:
         fail = stack_failure(a['case'], [tuple(x) for x in a['stack_shifts']], a.get('upsample', False))
     elif 'edge' in a:
         fail = edge_failure(a['case'], a['starts'], a['edge']['crop_function'], a['edge']['nb'], a['edge']['prefill'])
@@ -402,6 +447,31 @@ def run(ctx):
                 ctx.violation('input', fail, {'kind': 'input', 'call': 'process_frames_fast/full', 'args': {'case': c2, 'upsample': False}, 'failure': fail}, signature=classify(fail, c2))
                 break
         if ctx.violations:
+            break
+    # (S) frames of even and odd width one right after the other with upsampling (state keyed by the half-spectrum shape); narrow centre dtypes
+    for i in range(ctx.n(10, 60)):
+        kind = KINDS[i % 4]
+        radius = float(rng.choice([3.0, 4.0, 5.5]))
+        ro = radius * 1.5 if 'Background' in kind else None
+        _, desc = make(kind, radius, max(radius + 2.5, ro or 0), ro)
+        h, m, ups, sd = int(rng.integers(30, 50)), 200 + i, [4, 10, True, 20][i % 4], int(rng.integers(0, 2 ** 31))     # widths 400+: used nowhere else in this check
+        fail = consecutive_failure(desc, radius, h, m, ups, sd)
+        ctx.count(4, key=('consecutive', kind, radius, h, m, ups, sd))
+        if fail:
+            ctx.violation('input', fail, {'kind': 'history', 'call': 'process_frames_full on frames of width 2m, 2m+1', 'args': {'consecutive': {'desc': desc, 'radius': radius, 'h': h, 'm': m, 'upsample': ups, 'seed': sd}}, 'failure': fail})
+            break
+    n = tries = 0
+    while n < ctx.n(20, 200) and tries < 2000:
+        tries += 1
+        c = gen(rng)
+        if c is None:
+            continue
+        n += 1
+        ups = [4, 10, 50, True][n % 4]
+        fail = narrow_centres_failure(c, ups)
+        ctx.count(1, key=('narrow centres', json.dumps(c['desc'])[:200], c['shape'], c['p'], c['off'], ups))
+        if fail:
+            ctx.violation('input', fail, {'kind': 'input', 'call': 'base.correlation.process_frame_full', 'args': {'case': c, 'upsample': ups, 'narrow_centres': True}, 'failure': fail}, signature=classify(fail, c))
             break
     # (S) stacks of frames with the disk on a different pixel in every frame (the batch helpers re-use their buffers from frame to frame)
     n = tries = 0
